@@ -22,6 +22,9 @@ pub enum License {
 #[derive(Clone, Debug)]
 pub struct Profile {
     pub selected_protocol: u32,
+    /// how the ConnectData::connectPDU length is written: 0 = the accurate length; 1 = the constant 0x2A that Windows and
+    /// FreeRDP servers write whatever follows (MS-RDPBCGR 4.1.4: "This length MUST be ignored by the client")
+    pub connect_pdu_len_style: u8,
     pub cc_flags: u8,
     pub user_id: u16,
     pub io_channel: u16,
@@ -106,6 +109,7 @@ impl Default for Profile {
     fn default() -> Self {
         Profile {
             selected_protocol: 0,
+            connect_pdu_len_style: 0,
             cc_flags: 0,
             user_id: 1007,
             io_channel: 1003,
@@ -240,7 +244,7 @@ pub fn conference_create_response(p: &Profile, blocks: &B) -> B {
     let mut oid = Vec::new();
     per::w_oid(&mut oid, &T124_OID);
     b.bytes("gcc.oid", &oid);
-    b.per_len("gcc.connectPDULength", inner.len());
+    b.per_len("gcc.connectPDULength", if p.connect_pdu_len_style == 1 { 0x2a } else { inner.len() });
     b.nest("c", &inner);
     b
 }
